@@ -116,11 +116,14 @@ RETS = {
                 rdig="r.map_err(|e| if cur_sel() % 3 == 2 { 0u32 } else { e.raw_os_error().unwrap_or(-1) as u32 }).dig()", attr="#[int_result]"),
     "int_unit_io": R("Result<(), ::std::io::Error>", "match sel % 3 { 0 => Ok(()), 1 => Err(::std::io::Error::from_raw_os_error(((k % 4000) as i32) + 2)), _ => Err(::std::io::Error::from_raw_os_error(-(((k % 4000) as i32) + 2))) }",
                      rdig="r.map_err(|e| e.raw_os_error().unwrap_or(0) as u32).dig()", attr="#[int_result]"),
+    # Result shapes WITHOUT a method-level attribute, for traits that carry a trait-level #[int_result] / #[int_result(PResult)]
+    "int_tl": R("Result<u64, ()>", "if sel % 2 == 0 { Ok(k) } else { Err(()) }"),
+    "int_tl_alias": R("PResult<u64>", "if sel % 2 == 0 { Ok(k) } else { Err(()) }"),
     "int_alias": R("PResult<u64>", "if sel % 2 == 0 { Ok(k) } else { Err(()) }", attr="#[int_result(PResult)]"),
     "no_int": R("Result<u64, u32>", "if sel % 2 == 0 { Ok(k) } else { Err(k as u32) }", attr="#[int_result]\n    #[no_int_result]"),
     "int_fmt": R("Result<u64, ::core::fmt::Error>", "if sel % 2 == 0 { Ok(k) } else { Err(::core::fmt::Error) }", rdig="r.map_err(|_| 1u32).dig()", attr="#[int_result]"),
 }
-SELS = {"res_ie": 2, "int_zst_drop": 2, "opt_ptr": 3, "opt_q": 3, "res_q": 2, "int_q": 2, "slice_u8": 5, "slice_mut": 4, "str": 4, "opt_u64": 3, "opt_ref": 2, "res": 2, "res_unit": 2, "int_u64": 2, "int_unit": 2,
+SELS = {"int_tl": 2, "int_tl_alias": 2, "res_ie": 2, "int_zst_drop": 2, "opt_ptr": 3, "opt_q": 3, "res_q": 2, "int_q": 2, "slice_u8": 5, "slice_mut": 4, "str": 4, "opt_u64": 3, "opt_ref": 2, "res": 2, "res_unit": 2, "int_u64": 2, "int_unit": 2,
         "int_drop": 2, "int_io": 3, "int_unit_io": 3, "int_alias": 2, "no_int": 2, "int_fmt": 2}
 
 
@@ -138,19 +141,21 @@ def ret_ok(recv, ret):
 # how variant 0 of a shape is passed to the *raw* vtable slot (wrapped C type)
 RAW_NO_INTO = {"callback", "iter", "fnptr", "ptr", "opt_nz"}
 RAW_RECV = {"ref": "&cont", "mut": "&mut cont", "own": "cont", "pinref": "::core::pin::Pin::new(&cont)", "pinmut": "::core::pin::Pin::new(&mut cont)"}
-RAW_EXTRA = {"int_q", "int_u64", "int_drop", "int_io", "int_alias", "int_fmt"}
+RAW_EXTRA = {"int_tl", "int_tl_alias", "int_q", "int_u64", "int_drop", "int_io", "int_alias", "int_fmt"}
 
 
 class Method:
-    def __init__(self, name, recv, args, ret, default=None):
+    def __init__(self, name, recv, args, ret, default=None, abi=None):
         # default: None | "plain" | "sized"  — the trait declares a default body (returning a sentinel that the
         # implementor's override never returns), optionally with a `where Self: Sized` clause
-        self.name, self.recv, self.args, self.ret, self.default = name, recv, args, ret, default
+        # abi: None | 'extern "C"' — the trait method itself is declared with a C ABI (its wrapped shapes are lowered all the same)
+        self.name, self.recv, self.args, self.ret, self.default, self.abi = name, recv, args, ret, default, abi
 
 
 class Trait:
-    def __init__(self, idx, methods, tag):
-        self.idx, self.methods, self.tag = idx, methods, tag
+    def __init__(self, idx, methods, tag, attr=None):
+        # attr: trait-level attribute line(s) placed after #[cglue_trait] (e.g. a trait-wide #[int_result])
+        self.idx, self.methods, self.tag, self.attr = idx, methods, tag, attr
         self.name = "T%d" % idx
         self.mod = "t%d" % idx
 
@@ -177,6 +182,8 @@ def emit_trait(t):
     w("    use cglue::*;")
     w("    #[allow(dead_code)] pub type PResult<T> = Result<T, ()>;")
     w("    #[cglue_trait]")
+    if t.attr:
+        w("    " + t.attr)
     w("    pub trait %s {" % t.name)
     for j, m in enumerate(t.methods):
         r = RETS[m.ret]
@@ -197,9 +204,12 @@ def emit_trait(t):
             wh = " where Self: Sized" if m.default == "sized" else ""
             w("        fn %s%s(%s) -> %s%s { 0xDEAD_0000 + %d }" % (m.name, lt, ", ".join([sig_recv] + params), rty, wh, j))
         else:
-            w("        fn %s%s(%s) -> %s;" % (m.name, lt, ", ".join([sig_recv] + params), rty))
+            w("        %sfn %s%s(%s) -> %s;" % ((m.abi + " ") if m.abi else "", m.name, lt, ", ".join([sig_recv] + params), rty))
     w("    }")
     # ---- implementation for Imp
+    if any(m.abi for m in t.methods):
+        # the implementor's own `extern "C" fn` takes Rust types by design; the FFI lints are meant for the GENERATED glue
+        w("    #[allow(improper_ctypes_definitions)]")
     w("    impl %s for Imp {" % t.name)
     for j, m in enumerate(t.methods):
         r = RETS[m.ret]
@@ -210,7 +220,7 @@ def emit_trait(t):
             sig_recv = sig_recv.replace("&self", "&'a self").replace("&mut self", "&'a mut self")
             rty = rty.replace("&", "&'a ")
         params = ["a%d: %s" % (i, ARGS[a]["ty"]) for i, a in enumerate(m.args)]
-        w("        fn %s%s(%s) -> %s {" % (m.name, lt, ", ".join([sig_recv] + params), rty))
+        w("        %sfn %s%s(%s) -> %s {" % ((m.abi + " ") if m.abi else "", m.name, lt, ", ".join([sig_recv] + params), rty))
         w("            " + RECV[m.recv]["this"])
         w("            let sel = cur_sel();")
         w("            let mut d: u64 = %d;" % (j + 1))
@@ -325,13 +335,15 @@ def emit_trait(t):
 # left out of the thorough cross products
 LIGHT_ARGS = {"opt_q", "res_q"}
 LIGHT_RETS = {"opt_q", "res_q", "int_q", "res_ie"}
+# only meaningful under a trait-level attribute: never enumerated on their own
+TRAIT_LEVEL_RETS = {"int_tl", "int_tl_alias"}
 
 
 def build(tier):
     traits = []
 
-    def add(methods, tag):
-        traits.append(Trait(len(traits), methods, tag))
+    def add(methods, tag, attr=None):
+        traits.append(Trait(len(traits), methods, tag, attr))
 
     recvs = ["ref", "mut", "own", "pinref", "pinmut"]
     if tier == "quick":
@@ -342,6 +354,8 @@ def build(tier):
         # receiver x return (fixed argument u64)
         for rc in recvs:
             for r in RETS:
+                if r in TRAIT_LEVEL_RETS:
+                    continue
                 if ret_ok(rc, r):
                     add([Method("m", rc, ["u64"], r)], "recv=%s args=[u64] ret=%s" % (rc, r))
         # every shape in position 2
@@ -354,7 +368,7 @@ def build(tier):
         for rc in recvs:
             for a in ARGS:
                 for r in RETS:
-                    if a in LIGHT_ARGS or r in LIGHT_RETS:
+                    if a in LIGHT_ARGS or r in LIGHT_RETS or r in TRAIT_LEVEL_RETS:
                         continue
                     if ret_ok(rc, r):
                         add([Method("m", rc, [a], r)], "recv=%s args=[%s] ret=%s" % (rc, a, r))
@@ -379,6 +393,18 @@ def build(tier):
     # a method-level #[int_result] must not leak into its neighbours: plain Result methods before and after it keep their CResult
     add([Method("ma", "ref", ["u64"], "res_ie"), Method("mb", "ref", ["u64"], "int_u64"), Method("mc", "mut", ["u64"], "res_ie")],
         "3 methods: CResult with an IntError error type, int_result, CResult with an IntError error type again")
+    # trait-level and method-level integer-result attributes in one trait, with different result identifiers (both directions)
+    add([Method("ma", "ref", ["u64"], "int_alias"), Method("mb", "ref", ["u64"], "int_tl"), Method("mc", "mut", ["u64"], "u64")],
+        "trait-level #[int_result] + method-level #[int_result(PResult)] + plain Result under the trait-level attribute", attr="#[int_result]")
+    add([Method("ma", "ref", ["u64"], "int_u64"), Method("mb", "mut", ["u64"], "int_tl_alias")],
+        "trait-level #[int_result(PResult)] + method-level bare #[int_result] + PResult under the trait-level attribute", attr="#[int_result(PResult)]")
+    # trait methods that are themselves declared `extern "C"`: every wrapped shape is lowered as for ordinary methods
+    EC = 'extern "C"'
+    for a in ("slice_u8", "str", "opt_u64", "res", "slice_mut"):
+        add([Method("m", "mut", [a], "u64", abi=EC)], "extern \"C\" method, recv=mut args=[%s] ret=u64" % a)
+    for r in ("slice_u8", "str", "opt_u64", "res", "int_u64", "s3"):
+        add([Method("m", "ref", ["u64"], r, abi=EC)], "extern \"C\" method, recv=ref args=[u64] ret=%s" % r)
+    add([Method("ma", "ref", ["str"], "opt_u64", abi=EC), Method("mb", "ref", ["str"], "opt_u64")], "extern \"C\" method next to an ordinary method with the same signature")
     # methods with a default body that the implementor overrides (with and without a `where Self: Sized` clause)
     add([Method("ma", "ref", ["u64"], "u64", default="plain"), Method("mb", "mut", ["u64"], "u64", default="sized"), Method("mc", "ref", [], "u64")], "default bodies overridden by the implementor (plain / where Self: Sized) + required method")
     add([Method("ma", "ref", ["slice_u8"], "u64", default="sized"), Method("mb", "own", ["u64"], "u64", default="sized")], "default bodies: sized with slice argument, consuming with default (where Self: Sized)")
